@@ -411,6 +411,18 @@ D_d_getitem(a) == LET d == a[1] k == a[2] IN
                                         ELSE LET i == DictIdx(Pay(d), k, 1) IN IF i = 0 THEN KEk(k) ELSE Val(Pay(d)[i][2]), d>>)
                   \cup Br(Tag(d) = "list", <<SeqItem(d, k), d>>)
                   \cup Br(Tag(d) \notin {"dict", "list"}, <<TE, d>>)
+\* del d[k]
+SeqDelItem(x, k) == LET c == AsIndex(k) n == Len(Pay(x)) IN
+                    IF c[1] = "te" THEN <<TE, x>>
+                    ELSE IF c[1] = "big" THEN <<IE, x>>
+                    ELSE LET j == IF c[2] < 0 THEN c[2] + n ELSE c[2] IN
+                         IF j < 0 \/ j >= n THEN <<IE, x>> ELSE <<Val(None), WithPay(x, RemoveAt(Pay(x), j + 1))>>
+D_d_delitem(a) == LET d == a[1] k == a[2] IN
+                  Br(Tag(d) = "dict", IF ~Hashable(k) THEN <<TE, d>>
+                                      ELSE LET i == DictIdx(Pay(d), k, 1) IN
+                                           IF i = 0 THEN <<KEk(k), d>> ELSE <<Val(None), WithPay(d, RemoveAt(Pay(d), i))>>)
+                  \cup Br(Tag(d) = "list", SeqDelItem(d, k))
+                  \cup Br(Tag(d) \notin {"dict", "list"}, <<TE, d>>)
 D_d_contains(a) == LET d == a[1] k == a[2] IN
                    Br(Tag(d) = "dict", <<IF ~Hashable(k) THEN TE ELSE Val(Bo(DictIdx(Pay(d), k, 1) # 0)), d>>)
                    \cup Br(Tag(d) = "list", <<Val(Bo(Member(Pay(d), k))), d>>)
@@ -1003,6 +1015,7 @@ ShapeTable == <<
   <<"d_setdefault1", "dict", P2(DictRecv, Keys)>>, <<"d_setdefault2", "dict", P3(DictRecv, Keys, {I(7), L0})>>,
   <<"d_pop1", "dict", P2(DictRecv, Keys)>>, <<"d_pop2", "dict", P3(DictRecv, Keys, {None, I(7)})>>,
   <<"d_contains", "dict", P2(DictRecv \cup {I(1)}, Keys)>>, <<"d_getitem", "dict", P2(DictRecv \cup {I(1)}, Keys)>>,
+  <<"d_delitem", "dict", P2(DictRecv \cup {I(1)}, Keys)>>,
   <<"d_keys", "dict", P1(DictRecv \cup {SA})>>, <<"d_values", "dict", P1(DictRecv \cup {SA})>>, <<"d_items", "dict", P1(DictRecv \cup {SA})>>,
   <<"d_copy", "dict", P1(DictRecv \cup {T12})>>, <<"d_clear", "dict", P1(DictRecv \cup {T12})>>,
   <<"d_update", "dict", P2(Dicts \cup {None, T12}, {D0, D2, Sub(D1, "O"), TPairs, LPair, LBad1, LBad2, LUnh, None, I(1), L0, Di(<<<<Bo(TRUE), I(9)>>>>)})>>,
@@ -1066,7 +1079,7 @@ Ref(sh, a) ==
     [] sh \in {"sorted", "sortedgen"} -> D_sorted(a)
     [] sh = "d_get1" -> D_d_get1(a) [] sh = "d_get2" -> D_d_get2(a)
     [] sh = "d_setdefault1" -> D_d_setdefault1(a) [] sh = "d_setdefault2" -> D_d_setdefault2(a)
-    [] sh = "d_pop1" -> D_d_pop1(a) [] sh = "d_pop2" -> D_d_pop2(a) [] sh = "d_contains" -> D_d_contains(a) [] sh = "d_getitem" -> D_d_getitem(a)
+    [] sh = "d_pop1" -> D_d_pop1(a) [] sh = "d_pop2" -> D_d_pop2(a) [] sh = "d_contains" -> D_d_contains(a) [] sh = "d_getitem" -> D_d_getitem(a) [] sh = "d_delitem" -> D_d_delitem(a)
     [] sh = "d_keys" -> D_d_keys(a) [] sh = "d_values" -> D_d_values(a) [] sh = "d_items" -> D_d_items(a)
     [] sh = "d_copy" -> D_d_copy(a) [] sh = "d_clear" -> D_d_clear(a) [] sh = "d_update" -> D_d_update(a)
     [] sh = "l_append" -> D_l_append_stmt(a) [] sh = "l_append_r" -> D_l_append(a)
@@ -1178,7 +1191,7 @@ LinesLaw == (shape = "splitlines1" /\ IsV /\ IsStrR(X1) /\ Truth(args[2])) => Co
 CodecLaw == (shape \in {"encode0", "encode1"} /\ IsV /\ IsStrR(X1)) =>
                LET c == IF shape = "encode0" THEN "utf8" ELSE CodecOf(Pay(args[2])) IN Decode(Pay(RV), c, "strict") = Val(St(Pay(X1)))
 \* dict laws: after setdefault the key is present, after pop it is absent, other entries are untouched
-DictLaw == (shape \in {"d_setdefault1", "d_setdefault2", "d_pop1", "d_pop2"} /\ IsV /\ IsDictR(X1)) =>
+DictLaw == (shape \in {"d_setdefault1", "d_setdefault2", "d_pop1", "d_pop2", "d_delitem"} /\ IsV /\ IsDictR(X1)) =>
                LET post == TheOut[2] k == args[2] IN
                /\ (DictIdx(Pay(post), k, 1) # 0) <=> (shape \in {"d_setdefault1", "d_setdefault2"})
                /\ \A i \in 1..Len(Pay(X1)) : ~PyEq(Pay(X1)[i][1], k) => \E j \in 1..Len(Pay(post)) : Pay(post)[j] = Pay(X1)[i]
@@ -1202,7 +1215,7 @@ KeyClass(v) == CASE IsNone(v) -> "none"
                  [] Tag(v) = "tuple" -> "tuple"
                  [] Tag(v) = "exc" /\ "KeyError" \in ExcBases(Pay(v)[1]) -> "exc"
                  [] OTHER -> "plain"
-KeyedShapes == {"d_pop1", "l_pop1", "d_getitem", "s_remove"}
+KeyedShapes == {"d_pop1", "l_pop1", "d_getitem", "d_delitem", "s_remove"}
 IsKeyed == O1[1] = "e" /\ O1[2] = "KeyError" /\ O1[3][1] = "args"
 \* a lookup by key that fails with KeyError reports exactly the key that was passed; packing the key into a 1-tuple is right for
 \* every key, handing the bare key to PyErr_SetObject is right for the plain class only
